@@ -44,7 +44,7 @@ Lemma schedule_cl s i o w p wr : cl_inv s -> clok o -> cl_inv (fst (schedule s i
 Proof.
   intros Hi Ho. unfold schedule.
   destruct (o_closed o) eqn:Ec; cbn [fst]; [apply cl_set_obj; assumption|].
-  assert (Hon : clok (if w then with_wr o (Some p) true true else with_rd o (Some p) true true)).
+  assert (Hon : clok (if w then with_wr o (Some (set_wrapped p wr)) true true else with_rd o (Some (set_wrapped p wr)) true true)).
   { destruct w; unfold clok; cbn; rewrite Ec; discriminate. }
   destruct (if w then o_evW o else o_evR o); cbn [fst]; [apply cl_set_obj; assumption|].
   destruct (ctl_ok o); cbn [fst].
@@ -62,7 +62,7 @@ Proof.
   destruct (if w then sys_write o (op_len p - op_sofar p) else sys_read o (op_len p - op_sofar p)) as [o1 r].
   cbn [fst] in Ho1.
   destruct r.
-  - destruct (op_all p && negb (op_sofar p + n =? op_len p)); [apply IH|cbn [fst]]; apply cl_set_obj; assumption.
+  - destruct (op_all p && negb (op_sofar p + n =? op_len p) && negb (is_pkt o)); [apply IH|cbn [fst]]; apply cl_set_obj; assumption.
   - cbn [fst]. apply cl_set_obj; assumption.
   - apply schedule_cl; assumption.
   - cbn [fst]. apply cl_set_obj; assumption.
@@ -136,7 +136,7 @@ Proof.
   intros Hi. destruct a; cbn [do_action].
   - destruct (lookup o (l_objs s)) as [ob|] eqn:Hl; [|exact Hi].
     pose proof (objs_lookup clok _ _ _ Hi Hl) as Ho.
-    set (p := mkop cb all len 0).
+    set (p := mkop cb all len 0 false).
     set (o0 := if write then with_wr ob (Some p) (o_evW ob) (o_reg ob) else with_rd ob (Some p) (o_evR ob) (o_reg ob)).
     assert (Ho0 : clok o0) by (unfold o0; destruct write; apply (clok_bits ob); auto).
     assert (H0 : cl_inv (add_log s (LStart cb o write all len))) by (apply (cl_same_objs s); [reflexivity|exact Hi]).
